@@ -27,6 +27,7 @@ import (
 // GridSpec is enough to rebuild a grid.G (stored in replay files).
 type GridSpec struct {
 	Kind      string   `json:"kind"` // "synth"
+	Set       string   `json:"set,omitempty"`
 	Deepest   int      `json:"deepest"`
 	Px        float64  `json:"px"`
 	Ox        float64  `json:"ox"`
@@ -38,6 +39,17 @@ type GridSpec struct {
 }
 
 func (s GridSpec) Build() *grid.G {
+	if s.Kind == "real" {
+		tms, err := tms20.LoadEmbeddedTileMatrixSet(s.Set)
+		if err != nil {
+			ev.HarnessError("%v", err)
+		}
+		g, err := grid.NewReal(s.Set, tms, s.Deepest, s.Sub, s.OffPx)
+		if err != nil {
+			ev.HarnessError("%v", err)
+		}
+		return g
+	}
 	corner := tms20.BottomLeft
 	if s.TopLeft {
 		corner = tms20.TopLeft
